@@ -160,17 +160,24 @@ Definition compute_live (prog : list instr) (fuel : nat) : list (list reg) :=
 Definition removed_flags (idx : list nat) (n : nat) : list bool :=
   map (fun k => existsb (Nat.eqb k) idx) (seq 0 n).
 
+(* (5) nothing but the allowed registers (physical registers, plus whatever the allocator's INPUT
+       program already read undefined) is live at function entry: a virtual register live at entry
+       is read before any write on some path *)
+Definition check_entry_live (prog : list instr) (live : list (list reg)) (allowed : list reg) : bool :=
+  subset (live_in_of prog live 0) allowed.
+
 (* the per-frame entry point used by the check: certificate supplied ... *)
 Definition check_frame_cert (prog : list instr) (live : list (list reg)) (ctbl : list (reg * reg))
-  (atbl : list (reg * list reg)) (physl : list reg) (removed : list bool) (pre : list (reg * reg))
-  (after : list instr) : bool :=
+  (atbl : list (reg * list reg)) (physl : list reg) (entry_extra : list reg) (removed : list bool)
+  (pre : list (reg * reg)) (after : list instr) : bool :=
   check_alloc prog live (color_of ctbl) (alias_of atbl) physl removed
+  && check_entry_live prog live (physl ++ entry_extra)
   && check_precoloured (color_of ctbl) pre
   && check_rewritten prog (color_of ctbl) removed after.
 
 (* ... or computed here (and validated like a supplied one) *)
 Definition check_frame (prog : list instr) (fuel : nat) (ctbl : list (reg * reg))
-  (atbl : list (reg * list reg)) (physl : list reg) (removed_idx : list nat)
+  (atbl : list (reg * list reg)) (physl : list reg) (entry_extra : list reg) (removed_idx : list nat)
   (pre : list (reg * reg)) (after : list instr) : bool :=
-  check_frame_cert prog (compute_live prog fuel) ctbl atbl physl
+  check_frame_cert prog (compute_live prog fuel) ctbl atbl physl entry_extra
                    (removed_flags removed_idx (length prog)) pre after.
